@@ -17,7 +17,7 @@ ID = 'C10'
 LEVEL = 'exploration'
 PRELOAD = ['frame.geometry.geometry', 'frame.netlist.netlist', 'frame.die.die', 'frame.allocation.allocation', 'ruamel.yaml', 'mc.common', 'tools.glbfloor.optimization']
 RULE = ("dies {4x4, 6x4, 4x4 with a blockage, 4x4 with a fixed module} x pre-refinement {split_refinable_regions(2,4) / (2,16) / (1.5,9), initial_grid(2,2) / (4,4) on empty dies} x netlists of "
-        "2-3 modules from {soft A, soft B, hard single rectangle, hard L-shape, flippable hard L-shape} (+ the fixed module of the die) with a chain of 2-pin nets or one hyperedge x "
+        "2-3 modules from {soft A, soft B, soft C (overlapping the fixed module), hard single rectangle, hard L-shape, flippable hard L-shape, flippable shapes almost aligned in x or y} (+ the fixed module of the die) with a chain of 2-pin nets or one hyperedge x "
         "alpha in {0.1, 0.5} x threshold in {0.7, 0.95} x max_iter in {1, 2} (quick: full product minus one corner); thorough: alpha {0.1,0.5,0.9} x threshold {0.5,0.7,0.95} x max_iter {1,2,3}. "
         "Non-trivial = runs that returned an allocation with at least one cell shared by two modules or partially occupied; distinct by construction.")
 ASSUMPTIONS = ["'within solver tolerance': ratios in [-1e-6, 1+1e-6], per-cell occupancy <= 1 + 1e-4, centres inside the die within 1e-6 (GEKKO RTOL/OTOL default 1e-6)",
@@ -37,9 +37,16 @@ MODS = {
     'hard1': {'hard': True, 'rectangles': [[2.0, 2.0, 1.0, 1.0]]},
     'hardL': {'hard': True, 'rectangles': [[2.0, 1.5, 2.0, 1.0], [1.5, 2.5, 1.0, 1.0]]},
     'flipL': {'hard': True, 'flip': True, 'rectangles': [[2.0, 1.5, 2.0, 1.0], [1.5, 2.5, 1.0, 1.0]]},
+    # a soft module whose initial square covers most of the fixed rectangle of die d44f
+    'softC': {'area': 3.0, 'center': [1.0, 3.0]},
+    # flippable modules whose rectangles are (almost) aligned in one axis: the offset in that axis is below the solver
+    # tolerance, so the solution may come back 'mirrored' in it and the mirror branches of the extraction run
+    'flipIy': {'hard': True, 'flip': True, 'rectangles': [[2.0, 1.5, 2.0, 1.0], [3.5, 1.5000001, 1.0, 0.9]]},
+    'flipIx': {'hard': True, 'flip': True, 'rectangles': [[2.0, 1.5, 1.0, 2.0], [2.0000001, 3.0, 0.9, 1.0]]},
 }
 NETLISTS = [('softA', 'softB'), ('softA', 'hard1'), ('softA', 'hardL'), ('softB', 'flipL'), ('softA', 'softB', 'hard1'),
-            ('softA', 'softB', 'hardL'), ('softA', 'softB', 'flipL'), ('softA', 'hard1', 'hardL'), ('softB', 'hard1', 'flipL')]
+            ('softA', 'softB', 'hardL'), ('softA', 'softB', 'flipL'), ('softA', 'hard1', 'hardL'), ('softB', 'hard1', 'flipL'),
+            ('softC', 'softB'), ('softC', 'hard1'), ('softA', 'flipIy'), ('softB', 'flipIx'), ('softA', 'softB', 'flipIy')]
 PRES = [['split', 2.0, 4], ['split', 2.0, 16], ['grid', 2, 2], ['grid', 4, 4], ['split', 1.5, 9]]
 ALPHAS = [0.1, 0.5]
 THRS = [0.7, 0.95]
@@ -55,7 +62,7 @@ def instances(tier):
     for d, nl, pre, a, t, it in itertools.product(DIES, netlists, range(len(PRES)), alphas, thrs, iters):
         if PRES[pre][0] == 'grid' and d in ('d44b', 'd44f'):
             continue
-        if tier == 'quick' and a == 0.1 and t == 0.95 and it == 2:
+        if tier == 'quick' and a == 0.1 and t == 0.95:
             continue
         for hyper in (False, True):
             if hyper and len(NETLISTS[nl]) < 3:
